@@ -421,7 +421,14 @@ func buildRequest(r *rand.Rand, p *synth.Project, c *synth.Controller, m *synth.
 		}
 		if pr.In == "body" {
 			var bodyText string
-			if plan.BadBody {
+			if plan.BadBody && plan.Class == "boundary" {
+				// a complete JSON value followed by more data is not a JSON document either
+				v := sampleJSON(r, p, pr.Type, 0)
+				b, _ := json.Marshal(v)
+				bodyText = string(b) + ` {"second": "value"}`
+				br.Expect422 = true
+				why = append(why, "JSON body followed by trailing data")
+			} else if plan.BadBody {
 				bodyText = `{"broken": `
 				br.Expect422 = true
 				why = append(why, "malformed JSON body")
